@@ -415,3 +415,175 @@ def r15_2(ctx):
                 "in front of live ones breaks the used/unused invariant", body=a, bb=bad[0][0], path=bad[0][1])
     else:
         ctx.ok(('add', 'empty-noop'), sample=dict(fn='Assembler::add', writes_only_behind='size != 0'))
+
+
+def _lin_sig(F, n):
+    """(const, {arg/atom label: coef}) of a linear form; loop-carried phis are labelled by the argument they start from"""
+    l, c = lin(simplify(n))
+    out = {}
+    for a, v in l.items():
+        a0 = strip(a)
+        if a0[0] == 'arg':
+            k = f"arg{a0[1]}"
+        else:
+            args = sorted(x for x in leafs(a0) if x.startswith('A:'))
+            k = 'phi(' + ','.join(args) + ')' if a0[0] == 'phi' and args else show(a0)[:30]
+        out[k] = out.get(k, 0) + v
+    return c, out
+
+
+@rule('R15.3', ['C15', 'C01'], floor=2, clause='the guaranteed-success path of add_then_remove_front is taken for exactly the offset-0 inputs that would make add() allocate a new range (same comparison, same operands)')
+def r15_3(ctx):
+    """Sibling cross-check: add() calls add_contig_at (the only fallible step for offset 0) behind
+    `offset + size < contigs[i].hole_size`; the fast path must be guarded by the instance of that test for
+    offset = 0, i = 0: `size < contigs[0].hole_size`.  Narrower => an offset-0 insertion can fail when the
+    tracker is full; wider => the front is not merged/removed."""
+    F = ctx.F
+    add = ctx.method(AS, 'add')
+    atr = ctx.method(AS, 'add_then_remove_front')
+    aca = ctx.method(AS, 'add_contig_at')
+    sites = [x[0] for x in add.calls() if add.callee_name(x[1]) == aca.key]
+    ctx.need(len(sites) == 1, "the single add_contig_at call in Assembler::add")
+    CT = 'storage::assembler::Contig'
+
+    def hole_rhs(f):
+        return f[0] == 'rel' and f[1] == 'Lt' and any(l == f"F:{CT}.hole_size" for l in leafs(f[3])) and 'A:3' in leafs(f[2])
+    slow = None
+    for bi, bl in enumerate(add.blocks):
+        if bl['cl'] or bl['t'][0] != 'switch':
+            continue
+        for tb, lab, f in cond_facts(F, add, bi):
+            if hole_rhs(f) and not unguarded(F, add, sites, lambda g, f=f: g == f):
+                slow = f
+    ctx.need(slow is not None, "`offset + size < hole_size` guard dominating add_contig_at in Assembler::add")
+    c_s, l_s = _lin_sig(F, slow[2])
+    # the fast path: the hole_size store in add_then_remove_front
+    ws = [w for w in F.writers_of(CT, 'hole_size', kinds=('store',)) if w['fn'] == atr.key]
+    ctx.need(ws, "hole_size update in the fast path of add_then_remove_front")
+    fast = None
+    for bi, bl in enumerate(atr.blocks):
+        if bl['cl'] or bl['t'][0] != 'switch':
+            continue
+        for tb, lab, f in cond_facts(F, atr, bi):
+            if f[0] == 'rel' and f[1] in ('Lt', 'Le') and any(l == f"F:{CT}.hole_size" for l in leafs(f[3])) \
+                    and not unguarded(F, atr, [ws[0]['bb']], lambda g, f=f: g == f):
+                fast = f
+    ctx.need(fast is not None, "`size < hole_size` guard dominating the fast path")
+    c_f, l_f = _lin_sig(F, fast[2])
+    # offset := 0 in the slow guard
+    l_s0 = {k: v for k, v in l_s.items() if 'A:2' not in k and k != 'arg2'}
+    zero = lambda f: f[0] == 'rel' and f[1] == 'Eq' and simplify(f[2]) == ('arg', 2) and const_int(simplify(f[3])) == 0
+    if unguarded(F, atr, [ws[0]['bb']], zero):
+        ctx.bad("add_then_remove_front|fast-path|offset", "the fast path is reachable for offset != 0", body=atr, bb=ws[0]['bb'])
+    else:
+        ctx.ok(('fast-path', 'offset==0'))
+    if fast[1] == slow[1] and c_f == c_s and l_f == l_s0:
+        ctx.ok(('fast-path', 'same-test'), sample=dict(fast='size < contigs[0].hole_size', slow='offset + size < contigs[i].hole_size'))
+    else:
+        ctx.bad("add_then_remove_front|fast-path|guard", f"fast path guard `{l_f}+{c_f} {fast[1]} hole_size` is not the offset-0 instance of add()'s "
+                f"new-range test `{l_s}+{c_s} {slow[1]} hole_size`: an offset-0 insertion can fail on a full tracker, or the front is not merged",
+                body=atr, bb=ws[0]['bb'])
+
+
+def _idx_origin(F, b, place, bi, si):
+    for p in place[1]:
+        if isinstance(p, list) and p[0] == 'i':
+            return simplify(F.origin.operand(b, ['c', [p[1], []]], bi, si))
+    return None
+
+
+def _shift_facts(F, b):
+    """(range start, range end, [(dst index, src index)] of element copies, [(index)] of Contig::empty() stores)"""
+    rng = None
+    copies, clears = [], []
+    for bi, bl in enumerate(b.blocks):
+        if bl['cl']:
+            continue
+        for si, s in enumerate(bl['s']):
+            if s[0] != 'a':
+                continue
+            if s[2][0] == 'agg' and 'Range' in str(s[2][1].get('adt')) and len(s[2][2]) == 2:
+                rng = tuple(untuple(simplify(F.origin.operand(b, o, bi, si))) for o in s[2][2])
+            if s[1][1] and any(isinstance(p, list) and p[0] == 'f' and p[2] == 'contigs' for p in s[1][1]) and \
+                    any(isinstance(p, list) and p[0] == 'i' for p in s[1][1]):
+                dst = _idx_origin(F, b, s[1], bi, si)
+                rv = s[2]
+                src_place, sbi, ssi = None, bi, si
+                if rv[0] == 'use' and rv[1][0] in ('c', 'm'):
+                    if any(isinstance(p, list) and p[0] == 'i' for p in rv[1][1][1]):
+                        src_place = rv[1][1]
+                    elif rv[1][1][1] == []:
+                        # through a temporary: `_t = copy contigs[j]; contigs[i] = move _t`
+                        ds = [d for d in b._all_defs().get(rv[1][1][0], []) if d[3] == []]
+                        if len(ds) == 1 and ds[0][2] == 'a' and ds[0][4][0] == 'use' and ds[0][4][1][0] in ('c', 'm') and \
+                                any(isinstance(p, list) and p[0] == 'i' for p in ds[0][4][1][1][1]) and \
+                                any(isinstance(p, list) and p[0] == 'f' and p[2] == 'contigs' for p in ds[0][4][1][1][1]):
+                            src_place, sbi, ssi = ds[0][4][1][1], ds[0][0], ds[0][1]
+                if src_place is not None:
+                    copies.append((dst, _idx_origin(F, b, src_place, sbi, ssi), bi))
+                else:
+                    o = simplify(F.origin.rvalue(b, rv, bi, si, 0, None))
+                    if is_call(o, 'Contig::empty'):
+                        clears.append((dst, bi))
+    return rng, copies, clears
+
+
+def _is_len(k):
+    k = strip(k)
+    return k[0] == 'len' or (k[0] == 'call' and k[1].endswith('::len'))
+
+
+def _no_partial(n):
+    if not isinstance(n, tuple) or not n:
+        return n
+    if n[0] == 'phi':
+        al = tuple(_no_partial(a) for a in n[1] if a != ('opaque', 'partial-def'))
+        return al[0] if len(al) == 1 else ('phi', al)
+    return tuple(_no_partial(x) if isinstance(x, tuple) else x for x in n)
+
+
+def _lin_diff(a, b):
+    la, ca = lin(simplify(_no_partial(a)))
+    lb, cb = lin(simplify(_no_partial(b)))
+    d = dict(la)
+    for k, v in lb.items():
+        d[k] = d.get(k, 0) - v
+    d = {k: v for k, v in d.items() if v}
+    return (ca - cb) if not d else None
+
+
+@rule('R15.4', ['C15'], floor=6, clause='the range-array shifts are complete: removal copies slot i+1 into i for every i from the removed slot up to the last, then clears the last slot; insertion copies i-1 into i down to the slot after the insertion point, then clears the insertion point')
+def r15_4(ctx):
+    F = ctx.F
+    for nm, step, what in (('remove_contig_at', +1, 'left'), ('add_contig_at', -1, 'right')):
+        b = ctx.method(AS, nm)
+        rng, copies, clears = _shift_facts(F, b)
+        ctx.need(rng is not None and copies and clears, f"shift loop, element copy and clearing store in {nm}")
+        for dst, src, bi in copies:
+            d = _lin_diff(src, dst) if src is not None and dst is not None else None
+            if d == step:
+                ctx.ok((nm, 'copy-step'), sample=dict(fn=nm, copy=f"contigs[i] = contigs[i{step:+d}]"))
+            else:
+                ctx.bad(f"{nm}|copy-step", f"{nm} copies slot i{'' if d is None else f'{d:+d}'} into slot i (expected i{step:+d})", body=b, bb=bi)
+        cdst = clears[-1][0]
+        if what == 'left':
+            # [at, E) then clear E ; E = len - 1
+            d = _lin_diff(rng[1], cdst)
+            l_e, c_e = lin(rng[1])
+            last = len(l_e) == 1 and c_e == -1 and all(_is_len(k) for k in l_e)
+            if d == 0 and last and simplify(rng[0]) == ('arg', 2):
+                ctx.ok((nm, 'range'), sample=dict(fn=nm, loop='at..len-1', then='contigs[len-1] = empty'))
+            else:
+                ctx.bad(f"{nm}|range", f"{nm} shifts slots {show(rng[0])[:20]}..{show(rng[1])[:30]} and then clears slot {show(cdst)[:30]}: "
+                        "a live range is duplicated or lost when the tracker is (nearly) full", body=b, bb=clears[-1][1])
+        else:
+            # (at+1 .. len).rev() then clear at
+            d = _lin_diff(rng[0], cdst)
+            l_e, c_e = lin(rng[1])
+            full = len(l_e) == 1 and c_e == 0 and all(_is_len(k) for k in l_e)
+            if d == 1 and full and simplify(cdst) == ('arg', 2):
+                ctx.ok((nm, 'range'), sample=dict(fn=nm, loop='(at+1..len).rev()', then='contigs[at] = empty'))
+            else:
+                ctx.bad(f"{nm}|range", f"{nm} shifts slots {show(rng[0])[:20]}..{show(rng[1])[:30]} and then clears slot {show(cdst)[:30]}", body=b, bb=clears[-1][1])
+        # the copy loop is the range loop: dst index derives from the iterator
+        ctx.ok((nm, 'scanned'))
